@@ -309,6 +309,11 @@ def e2e_inputs(case):
     ranks = scenario.build_ranks(R=case["R"], groups=case["groups"], freq=512.0, seed=case["seed"], kernels=2)
     truth = {}
     for rk in ranks:
+        # two more kernels behind everything else whose NAMES contain "Prep" without being Prep slices
+        t_last = max(p[0]["ts"] for p in rk.events) - rk.host_epoch + 200.0
+        t_last = scenario.kernel(rk, "DataPrep_2", float(int(t_last)))
+        scenario.kernel(rk, "MaskPrepare_5", t_last + 10)
+    for rk in ranks:
         u = M32 - rnd.randrange(1000, 200000)          # the unwrapped charge passes 2^32 during the run
         pairs = sorted(rk.events, key=lambda p: p[0]["ts"])
         tr = []
